@@ -93,8 +93,8 @@ PROPS["C02"] = dict(level="exploration", race=False, tiers={
 })
 
 PROPS["C12"] = dict(level="exploration", race=True, tiers={
-    "quick": [dict(variant="", runs=300, budget_s=50)],
-    "thorough": [dict(variant="", runs=40000, budget_s=3300)],
+    "quick": [dict(variant="", runs=300, budget_s=50, workers=12)],
+    "thorough": [dict(variant="", runs=40000, budget_s=3300, workers=12)],
 })
 
 PROPS["C13"] = dict(level="exploration", race=False, tiers={
@@ -228,6 +228,7 @@ def spawn(binp, job, scratch, tag, race=False, gomaxprocs=None):
             os.remove(stale)
     json.dump(job, open(jobp, "w"))
     env = dict(GOENV, VERIF_JOB=jobp)
+    env.setdefault("GOMEMLIMIT", "1500MiB")  # soft limit: keeps 16 workers (x race shadow memory) inside the machine
     if race:
         env["GORACE"] = "halt_on_error=1 exitcode=66"
     if gomaxprocs:
